@@ -7,7 +7,7 @@
 (* deviation whose guard holds REPLACES the contract action for that event.        *)
 EXTENDS Seq
 
-KnownIds == {"C10-KF9", "C10-KF10", "C10-KF11"}
+KnownIds == {}
 
 (* the state change an event claims *)
 TransV(e, subj, first) ==
